@@ -241,20 +241,24 @@ where
                     session.inbound_unreleased.push_back(packet_id.get());
                 }
 
-                if let Some(subscription_identifier) =
-                    publish
-                        .subscription_identifier
-                        .map(|subscription_identifier| {
-                            NonZero::from(subscription_identifier).get().value() as usize
-                        })
-                {
+                // The message is delivered to every subscription it carries the identifier of.
+                let subscription_identifiers: Vec<usize> = publish
+                    .subscription_identifier
+                    .iter()
+                    .map(|&subscription_identifier| {
+                        NonZero::from(subscription_identifier).get().value() as usize
+                    })
+                    .collect();
+
+                for subscription_identifier in subscription_identifiers {
                     if let Some((_, subscription)) =
                         utils::linear_search_by_key(&session.subscriptions, subscription_identifier)
                             .map(|pos| &mut session.subscriptions[pos])
                     {
                         // User may drop the receiving stream,
                         // in that case remove it from the active subscriptions map.
-                        if (subscription.unbounded_send(RxPacket::Publish(publish))).is_err() {
+                        if (subscription.unbounded_send(RxPacket::Publish(publish.clone()))).is_err()
+                        {
                             utils::linear_search_by_key(
                                 &session.subscriptions,
                                 subscription_identifier,
